@@ -17,6 +17,7 @@ mod scen_c07;
 mod scen_c09;
 mod scen_c10;
 mod scen_c15;
+mod scen_c16;
 mod scen_c17;
 mod scen_c18;
 mod scen_r1cs;
@@ -121,6 +122,38 @@ fn tasks_for(prop: &str, tier: &str, seed: u64) -> Vec<Task> {
                         }),
                     });
                 }
+            }
+            out
+        }
+        "C16" => {
+            let mut out = vec![];
+            let (m1, m2) = if thorough { (5usize, 2usize) } else { (3usize, 2usize) };
+            for c in ["secq256k1", "zorro", "curve25519"] {
+                if !thorough && c != ["secq256k1", "zorro", "curve25519"][(seed % 3) as usize] {
+                    continue;
+                }
+                let c = c.to_string();
+                out.push(Task {
+                    name: format!("C16:enumeration:{}", c),
+                    replay: serde_json::json!({"kind": "c16", "max1": m1, "max2": m2, "seed": seed}),
+                    run: Box::new(move || {
+                        fn f<C: group::Base + 'static>(m1: usize, m2: usize, seed: u64, c: &str) -> Job
+                        where
+                            C::ScalarField: field::Inner,
+                        {
+                            arena::reset();
+                            let mut job = Job { property: "C16".into(), scenario: format!("C16:enumeration:{}", c), curve: c.into(), seed, ..Default::default() };
+                            let (count, checks) = scen_c16::enumerate::<group::SymA<C>>(m1, m2, seed, |s| Box::new(job::SymVals::<C::ScalarField>::new(s)));
+                            job.params = serde_json::json!({"phase1_calls_up_to": m1, "phase2_calls_up_to": m2, "sequences": count, "alphabet": "commit, allocate, allocate_multiplier, multiply, constrain"});
+                            for (n, ok) in checks {
+                                job.check(&n, ok, String::new());
+                            }
+                            job.replay = serde_json::json!({"kind": "c16", "max1": m1, "max2": m2, "seed": seed});
+                            job
+                        }
+                        on_curve!(c.as_str(), f, m1, m2, seed, &c)
+                    }),
+                });
             }
             out
         }
@@ -442,7 +475,7 @@ fn main() {
                     println!("REPLAY {}", if any_wrong { "REPRODUCED" } else { "NOT-REPRODUCED" });
                     std::process::exit(if any_wrong { 1 } else { 0 });
                 }
-                Some(kind @ ("c10" | "c13" | "c15" | "c07" | "c06" | "c09" | "c05" | "c04" | "c03" | "c18" | "c17")) => {
+                Some(kind @ ("c10" | "c13" | "c15" | "c07" | "c06" | "c09" | "c05" | "c04" | "c03" | "c18" | "c17" | "c16")) => {
                     let seed = rp["seed"].as_u64().unwrap_or(0);
                     let mut any_wrong = false;
                     for (k, m) in [(0u64, model.clone()), (1, HashMap::new()), (2, HashMap::new())] {
@@ -456,6 +489,7 @@ fn main() {
                                 let shape: r1cs::Shape = serde_json::from_value(rp["shape"].clone()).unwrap();
                                 replay::diff_native::<Secq>(&shape, seed + k)
                             }
+                            "c16" => scen_c16::enumerate_opt::<Secq>(rp["max1"].as_u64().unwrap() as usize, rp["max2"].as_u64().unwrap() as usize, seed + k, |s| Box::new(job::PlainVals::<ark_secq256k1::Fr>::new(HashMap::new(), s)), true).1,
                             "c17" => {
                                 let shape: r1cs::Shape = serde_json::from_value(rp["shape"].clone()).unwrap();
                                 scen_c17::capacity_grid::<Secq>(&shape, seed + k, || Box::new(job::PlainVals::<ark_secq256k1::Fr>::new(HashMap::new(), seed + k)))
